@@ -232,7 +232,11 @@ class Oracle:
         if opname == "delete_stream":
             spks = {r["pk"] for r in removed.get("Stream", [])}
             m = {pk for pk, r in mfs_before.items() if r["stream"] in spks}
-            allowed = {"Stream": spks, "media_file": m, "Blob": {mfs_before[pk]["blob"] for pk in m}}
+            # Periods that play the stream cannot outlive it (the alternative, refusing the delete, removes nothing)
+            prd = {r["pk"] for r in table_dicts(before, "period") if r["stream_pk"] in spks}
+            ads = {r["pk"] for r in table_dicts(before, "adaptation_set") if r["period_pk"] in prd}
+            allowed = {"Stream": spks, "media_file": m, "Blob": {mfs_before[pk]["blob"] for pk in m},
+                       "period": prd, "adaptation_set": ads}
         elif opname == "delete_media":
             m = {r["pk"] for r in removed.get("media_file", [])}
             allowed = {"media_file": m, "Blob": {mfs_before[pk]["blob"] for pk in m if pk in mfs_before}}
